@@ -50,10 +50,7 @@ def compare(scen, ctx, impl_out, model_out):
     if isinstance(i, dict) and 'classCreateError' in i:
         return None   # the declared class is refused at creation (compared by the `process` op, not here)
     if scen['op'] == 'render' and isinstance(m, dict) and 'text' in m and isinstance(i, dict) and 'text' in i:
-        try:
-            mt = impl.expand_segments(ctx, m['text'])
-        except Exception as e:  # noqa
-            return f'cannot expand model text: {e}'
+        mt = m['text']
         if mt != i['text']:
             return 'text differs:\n--- model\n' + mt + '\n--- impl\n' + i['text']
         if canon(m.get('tree')) != canon(i.get('tree')):
@@ -85,6 +82,25 @@ def sort_lists_in(out, keys):
     if not isinstance(out, dict):
         return out
     return {k: (sort_lists(v) if k in keys else v) for k, v in out.items()}
+
+
+def compare_projected(scen, impl_out, model_out, projectfn):
+    """-> None if the property-relevant projections agree, else a short description"""
+    if 'driverError' in model_out:
+        return 'driverError: ' + str(model_out['driverError'])
+    if isinstance(impl_out, dict) and 'harnessError' in impl_out:
+        return 'harnessError: ' + impl_out['harnessError']
+    if isinstance(impl_out, dict) and 'classCreateError' in impl_out:
+        return None
+    m, i = projectfn(model_out.get('out')), projectfn(impl_out)
+    cm, ci = canon(m), canon(i)
+    if scen['op'] == 'roundtrip' and has_set_type(scen):
+        cm, ci = sort_lists_in(cm, ('d', 'd2')), sort_lists_in(ci, ('d', 'd2'))
+    if cm != ci:
+        if scen['op'] == 'render' and isinstance(cm, dict) and isinstance(ci, dict) and cm.get('text') != ci.get('text'):
+            return 'text differs:\n--- model\n' + str(cm.get('text')) + '\n--- impl\n' + str(ci.get('text'))
+        return 'outputs differ'
+    return None
 
 
 def project(out, what):
@@ -122,6 +138,12 @@ def run_scenarios(scens, keep_ctx=False, project_what=None, stats=None):
     outs = run_driver(lines)
     res = []
     for (sc, ctx, iout), mout in zip(prepared, outs):
+        mo = mout.get('out')
+        if sc['op'] == 'render' and isinstance(mo, dict) and isinstance(mo.get('text'), list):
+            try:
+                mo['text'] = impl.expand_segments(ctx, mo['text'])
+            except Exception as e:  # noqa
+                mo['text'] = f'<cannot expand model text: {e}>'
         if isinstance(iout, dict) and 'harnessError' in iout:
             dis = 'harnessError: ' + iout['harnessError']
         else:
